@@ -10,6 +10,7 @@ RULE = ("seeded histories of the real extend-split strategy: d=2..4, start level
         "equal); oracle after every refine() (tiling, point assignment) and every evaluation (local coefficient sums, nodal "
         "reproduction of a hash-valued function). distinct = hash of the sorted leaf boxes with coarsening values; "
         "non-trivial = >=1 extend (lmax raise or coarsening decrease) and >=1 split beyond the initial one")
+RULE += (" A quarter of the histories are continued by a second performSpatiallyAdaptiv(start levels, refinement_container=current refinement) for 1..3 further steps.")
 REQUIRED = ["boxes_valid", "volumes_sum_to_domain", "disjoint_interiors", "coarsening_nonnegative", "assignment_exactly_once",
             "assignment_in_containing_leaf", "local_coefficient_sum", "local_nodal_reproduction"]
 MIN_NONTRIVIAL = {"quick": 60, "thorough": 600}
@@ -73,6 +74,13 @@ def run_case(case, res):
     obs = Obs(res, f, cfg, err if cfg["profile"] != "real" else None, rng)
     c = extsplit.build(cfg, f, obs)
     extsplit.run(c, cfg, err)
+    if rng.random() < 0.25 and obs.steps >= 1:
+        # the documented way to go on from an existing refinement: a second performSpatiallyAdaptiv with the ORIGINAL
+        # start levels and refinement_container=<current refinement>; the monitors keep watching the continued history
+        obs.max_steps = obs.steps + rng.randint(1, 3)
+        cfg["restarted_with_refinement_container"] = True
+        res.count("restarts_with_refinement_container")
+        extsplit.run(c, cfg, err, refinement_container=c.refinement)
     res.hash = extsplit.structure_digest(c)
     res.nontrivial = obs.extends >= 1 and obs.splits >= 1
     res.count("extends", obs.extends)
